@@ -66,6 +66,7 @@ def Cst.lexM : Cst → List Lex
   | .kw w c1 _ h c2 _ c3 _ b => .tok (kwText w) :: ncm c1 ++ h.lexM ++ ncm c2 ++ .tok [';'] :: ncm c3 ++ b.lexM
   | .sel e c1 _ _ attrs => e.lexM ++ ncm c1 ++ attrLex attrs
   | .selOr e c1 _ _ attrs c2 _ _ d => e.lexM ++ ncm c1 ++ attrLex attrs ++ ncm c2 ++ .tok ['o', 'r'] :: d.lexM
+  | .lam n c1 _ c2 _ b => .tok n :: ncm c1 ++ .tok [':'] :: ncm c2 ++ b.lexM
 def Items.lexM : Items → List Lex
   | .nil => []
   | .cmt _ t rest => normCmt t :: rest.lexM
@@ -221,6 +222,7 @@ theorem ok_setBefore {e : Expr} (h : e.ok) {b : List Trivia} (hb : TrivOk b) : (
   | asrt c bd x y b' a => exact ⟨h.1, h.2.1, h.2.2.1, h.2.2.2.1, hb, h.2.2.2.2.2⟩
   | sel e ats g ab b' a => exact ⟨h.1, h.2.1, h.2.2.1, h.2.2.2.1, hb, h.2.2.2.2.2⟩
   | selOr e ats g ab d dg db b' a => exact ⟨h.1, h.2.1, h.2.2.1, h.2.2.2.1, h.2.2.2.2.1, h.2.2.2.2.2.1, hb, h.2.2.2.2.2.2.2⟩
+  | lam n c g k bd b' a => exact ⟨h.1, h.2.1, h.2.2.1, hb, h.2.2.2.2⟩
 
 theorem ok_setAfter {e : Expr} (h : e.ok) {a : List Trivia} (ha : TrivOk a) : (e.setAfter a).ok := by
   cases e with
@@ -234,6 +236,7 @@ theorem ok_setAfter {e : Expr} (h : e.ok) {a : List Trivia} (ha : TrivOk a) : (e
   | asrt c bd x y b a' => exact ⟨h.1, h.2.1, h.2.2.1, h.2.2.2.1, h.2.2.2.2.1, ha⟩
   | sel e ats g ab b a' => exact ⟨h.1, h.2.1, h.2.2.1, h.2.2.2.1, h.2.2.2.2.1, ha⟩
   | selOr e ats g ab d dg db b a' => exact ⟨h.1, h.2.1, h.2.2.1, h.2.2.2.1, h.2.2.2.2.1, h.2.2.2.2.2.1, h.2.2.2.2.2.2.1, ha⟩
+  | lam n c g k bd b a' => exact ⟨h.1, h.2.1, h.2.2.1, h.2.2.2.1, ha⟩
 
 theorem ok_addAfter {e : Expr} (h : e.ok) {a : List Trivia} (ha : TrivOk a) : (e.addAfter a).ok :=
   ok_setAfter h (trivOk_append (ok_after h) ha)
@@ -261,6 +264,7 @@ theorem lexOut_setBefore (e : Expr) (hb : e.before = []) (b : List Trivia) (na :
   | asrt c bd x y b' a => simp only [Expr.before] at hb; subst hb; simp [Expr.setBefore, Expr.lexOut]
   | sel e ats g ab b' a => simp only [Expr.before] at hb; subst hb; simp [Expr.setBefore, Expr.lexOut]
   | selOr e ats g ab d dg db b' a => simp only [Expr.before] at hb; subst hb; simp [Expr.setBefore, Expr.lexOut]
+  | lam n c g k bd b' a => simp only [Expr.before] at hb; subst hb; simp [Expr.setBefore, Expr.lexOut]
 
 theorem modifyLast_isEmpty' {α : Type} (f : α → α) : ∀ (l : List α), (modifyLast f l).isEmpty = l.isEmpty
   | [] => rfl
@@ -307,6 +311,7 @@ theorem lexOut_addAfter (e : Expr) (hna : e.isAsrtE = false) (ts : List Trivia) 
   | wth e bd c g s b a => simp [Expr.addAfter, Expr.setAfter, Expr.after, Expr.lexOut]
   | sel e ats g ab b a => simp [Expr.addAfter, Expr.setAfter, Expr.after, Expr.lexOut]
   | selOr e ats g ab d dg db b a => simp [Expr.addAfter, Expr.setAfter, Expr.after, Expr.lexOut]
+  | lam n c g k bd b a => simp [Expr.addAfter, Expr.setAfter, Expr.after, Expr.lexOut]
   | asrt c bd x y b a => cases hna
   | leaf k t b a => simp [Expr.addAfter, Expr.setAfter, Expr.after, Expr.lexOut]
   | list v m inn b a => simp [Expr.addAfter, Expr.setAfter, Expr.after, Expr.lexOut]
@@ -327,6 +332,7 @@ theorem lexOut_addAfter_true (e : Expr) (ts : List Trivia) : (e.addAfter ts).lex
   | asrt c bd x y b a => simp [Expr.addAfter, Expr.setAfter, Expr.after, Expr.lexOut]
   | sel e ats g ab b a => simp [Expr.addAfter, Expr.setAfter, Expr.after, Expr.lexOut]
   | selOr e ats g ab d dg db b a => simp [Expr.addAfter, Expr.setAfter, Expr.after, Expr.lexOut]
+  | lam n c g k bd b a => simp [Expr.addAfter, Expr.setAfter, Expr.after, Expr.lexOut]
 
 theorem lexOut_true_of_after_nil (e : Expr) (h : e.after = []) : e.lexOut true = e.lexOut false := by
   cases e with
@@ -340,6 +346,7 @@ theorem lexOut_true_of_after_nil (e : Expr) (h : e.after = []) : e.lexOut true =
   | asrt c bd x y b a => simp only [Expr.after] at h; subst h; simp [Expr.lexOut]
   | sel e ats g ab b a => simp only [Expr.after] at h; subst h; simp [Expr.lexOut]
   | selOr e ats g ab d dg db b a => simp only [Expr.after] at h; subst h; simp [Expr.lexOut]
+  | lam n c g k bd b a => simp only [Expr.after] at h; subst h; simp [Expr.lexOut]
 
 theorem modifyLast_isEmpty {α : Type} (f : α → α) : ∀ (l : List α), (modifyLast f l).isEmpty = l.isEmpty
   | [] => rfl
@@ -387,6 +394,7 @@ theorem lexOut_addAfter_proj (strict : Bool) (e : Expr) (ts : List Trivia)
     | wth => cases hA
     | sel => cases hA
     | selOr => cases hA
+    | lam => cases hA
 
 theorem modifyLast_addAfter (strict : Bool) : ∀ (items : List Expr) (ts : List Trivia), items ≠ [] →
     (strict = true → lastAsrt items = true → cm ts = []) →
@@ -1038,6 +1046,35 @@ theorem cst_parse_spec (strict : Bool) : (c : Cst) → c.wf = true → (strict =
     rw [show e.lexM ++ attrLex attrs ++ Lex.tok ['o', 'r'] :: d.lexM = e.lexM ++ attrLex attrs ++ [Lex.tok ['o', 'r']] ++ d.lexM
       from by simp]
     simp only [proj_append, hel, hdl]
+  | .lam n c1 g1 c2 g2 b, hwf, hord => by
+    simp only [Cst.wf, Bool.and_eq_true, List.isEmpty_iff] at hwf
+    obtain ⟨⟨⟨⟨⟨hn, hc1⟩, _⟩, hc2⟩, _⟩, hbw⟩ := hwf
+    subst hc1; subst hc2
+    obtain ⟨be, hpb, hbok, hbb, _, hbl, _⟩ := cst_parse_spec strict b hbw (fun hs => by simpa [Cst.orderOk] using hord hs)
+    have hsn : solidT n := by
+      simp only [lamNameOk, Bool.and_eq_true, Bool.not_eq_true', List.isEmpty_eq_false_iff] at hn
+      exact ⟨hn.1, endsWithNL_false_of_all _ hn.2 (by decide)⟩
+    have hrep : ∀ (k : Nat), TrivOk (List.replicate k Trivia.emptyLine) ∧ cm (List.replicate k Trivia.emptyLine) = [] := by
+      intro k
+      induction k with
+      | zero => exact ⟨trivOk_nil, rfl⟩
+      | succ k ih =>
+        rw [List.replicate_succ]
+        exact ⟨trivOk_append (a := [Trivia.emptyLine]) trivOk_emptyLine ih.1, by rw [cm_emptyLine]; exact ih.2⟩
+    have hbody : (if (List.replicate (g2.count '\n' - 1) Trivia.emptyLine).isEmpty then be
+          else be.setBefore (List.replicate (g2.count '\n' - 1) Trivia.emptyLine ++ be.before)).ok ∧
+        (if (List.replicate (g2.count '\n' - 1) Trivia.emptyLine).isEmpty then be
+          else be.setBefore (List.replicate (g2.count '\n' - 1) Trivia.emptyLine ++ be.before)).lexOut false = be.lexOut false := by
+      split
+      · exact ⟨hbok, rfl⟩
+      · refine ⟨ok_setBefore hbok (by rw [hbb, List.append_nil]; exact (hrep _).1), ?_⟩
+        rw [lexOut_setBefore be hbb, hbb, List.append_nil, (hrep _).2]; rfl
+    refine ⟨lamFromCst n [] g1 g2 be, by simp only [Cst.parse, hpb],
+      ⟨hsn, by simp [collectTrivia, collectGo], hbody.1, trivOk_nil, trivOk_nil⟩, rfl, rfl, ?_, rfl⟩
+    simp only [lamFromCst, Expr.lexOut, Cst.lexM, cm_nil, List.nil_append, List.append_nil, if_false, Bool.false_eq_true, ncm,
+      List.map_nil, hbody.2]
+    rw [show ([Lex.tok n, Lex.tok [':']] : List Lex) = [Lex.tok n] ++ [Lex.tok [':']] from rfl]
+    simp only [proj_append, hbl]
 theorem items_parse_spec (strict : Bool) : (its : Items) → ∀ (m : Mode) (cg : Text) (st : SeqSt) (pend : Bool),
     its.wf m cg = true → StOk st →
     (strict = true → its.orderOk m st.prev pend (!st.items.isEmpty) = true ∧ (pend = false → cm st.before = []) ∧
@@ -1268,6 +1305,13 @@ theorem cst_toks_lexM : (c : Cst) → toksL c.lexM = toksL c.lex
       show e.lex ++ lexGC c1 ++ attrLex attrs ++ lexGC c2 ++ Lex.tok ['o', 'r'] :: d.lex =
         e.lex ++ lexGC c1 ++ attrLex attrs ++ lexGC c2 ++ [Lex.tok ['o', 'r']] ++ d.lex from by simp]
     simp only [toksL_append, toksL_ncm, toksL_lexGC, cst_toks_lexM e, cst_toks_lexM d]
+  | .lam n c1 _ c2 _ b => by
+    simp only [Cst.lexM, Cst.lex]
+    rw [show Lex.tok n :: ncm c1 ++ Lex.tok [':'] :: ncm c2 ++ b.lexM = [Lex.tok n] ++ ncm c1 ++ [Lex.tok [':']] ++ ncm c2 ++ b.lexM
+        from by simp,
+      show Lex.tok n :: lexGC c1 ++ Lex.tok [':'] :: lexGC c2 ++ b.lex = [Lex.tok n] ++ lexGC c1 ++ [Lex.tok [':']] ++ lexGC c2 ++ b.lex
+        from by simp]
+    simp only [toksL_append, toksL_ncm, toksL_lexGC, cst_toks_lexM b, toksL_tok, toksL_nil]
 theorem items_toks_lexM : (its : Items) → toksL its.lexM = toksL its.lex
   | .nil => rfl
   | .cmt _ t rest => by
